@@ -1,8 +1,8 @@
 (* C07: joins return exactly the relational join of their two inputs.
    ONLY property theorems (each closed by `exact`) and non-vacuity examples. *)
-From Coq Require Import List ZArith Bool Permutation.
-From IB Require Import Engine.Val Engine.Ops Engine.AMap Engine.Nodes Engine.Exec Engine.Lang
-     Engine.Denote Proofs.EngineJoin.
+From Coq Require Import List ZArith Bool Arith Permutation.
+From IB Require Import Engine.Val Engine.Ops Engine.AMap Engine.Nodes Engine.Exec Engine.Planner
+     Engine.Lang Engine.Denote Engine.Static Engine.Classify Proofs.EngineJoin Proofs.EngineJoinSpec.
 Import ListNotations.
 
 Definition is_row (v : val) : Prop := match v with VPair _ _ => True | _ => False end.
@@ -51,3 +51,211 @@ Example c07_example :
      VPair (VInt 2) (VPair (VSome (VInt 20)) VNone);
      VPair (VInt 3) (VPair VNone (VSome (VInt 9)))].
 Proof. vm_compute. reflexivity. Qed.
+
+(* ================= d_join IS the relational join, declaratively =================
+   `Denote.d_join` is an executable definition (flat_map / filter). The theorems below pin it down
+   without reference to how it is computed, for ALL lists of rows l and r (rows are `VPair k v`):
+   how often every possible result row occurs (`count_occ` with the decidable equality
+   `val_eq_dec` on values, EngineJoinSpec.v), that no other row occurs, and the total length.
+   Together with c07_join_exec_sound / c07_cogroup_arm (the engines return a permutation of
+   d_join, and Permutation preserves count_occ) this is the multiset the property describes. *)
+Local Close Scope Z_scope.
+Local Open Scope nat_scope.
+
+(* ---- 1. matched rows: one row for every PAIR of a left and a right row with equal keys ---- *)
+Theorem c07_inner_multiplicity : forall l r k v w, Forall is_row l -> Forall is_row r ->
+    count_occ val_eq_dec (d_join JInner l r) (VPair k (VPair v w))
+    = count_occ val_eq_dec l (VPair k v) * count_occ val_eq_dec r (VPair k w).
+Proof. exact d_join_inner_count. Qed.
+Theorem c07_left_matched_multiplicity : forall l r k v w, Forall is_row l -> Forall is_row r ->
+    count_occ val_eq_dec (d_join JLeft l r) (VPair k (VPair v (VSome w)))
+    = count_occ val_eq_dec l (VPair k v) * count_occ val_eq_dec r (VPair k w).
+Proof. exact d_join_left_matched_count. Qed.
+Theorem c07_right_matched_multiplicity : forall l r k v w, Forall is_row l -> Forall is_row r ->
+    count_occ val_eq_dec (d_join JRight l r) (VPair k (VPair (VSome v) w))
+    = count_occ val_eq_dec l (VPair k v) * count_occ val_eq_dec r (VPair k w).
+Proof. exact d_join_right_matched_count. Qed.
+Theorem c07_full_matched_multiplicity : forall l r k v w, Forall is_row l -> Forall is_row r ->
+    count_occ val_eq_dec (d_join JFull l r) (VPair k (VPair (VSome v) (VSome w)))
+    = count_occ val_eq_dec l (VPair k v) * count_occ val_eq_dec r (VPair k w).
+Proof. exact d_join_full_matched_count. Qed.
+
+Definition c07_L : list val :=
+  [VPair (VInt 1) (VInt 10); VPair (VInt 1) (VInt 11); VPair (VInt 2) (VInt 20);
+   VPair (VInt 1) (VInt 10); VPair (VInt 2) (VInt 20)].
+Definition c07_R : list val :=
+  [VPair (VInt 1) (VInt 7); VPair (VInt 3) (VInt 9); VPair (VInt 1) (VInt 8);
+   VPair (VInt 1) (VInt 7); VPair (VInt 1) (VInt 7); VPair (VInt 3) (VInt 9)].
+(* (1,10) twice on the left, (1,7) three times on the right: six copies of (1,(10,7)), in every
+   join kind; (1,(11,8)) once *)
+Example c07_example_matched_multiplicity :
+  count_occ val_eq_dec (d_join JInner c07_L c07_R) (VPair (VInt 1) (VPair (VInt 10) (VInt 7))) = 6 /\
+  count_occ val_eq_dec (d_join JLeft c07_L c07_R)
+            (VPair (VInt 1) (VPair (VInt 10) (VSome (VInt 7)))) = 6 /\
+  count_occ val_eq_dec (d_join JRight c07_L c07_R)
+            (VPair (VInt 1) (VPair (VSome (VInt 10)) (VInt 7))) = 6 /\
+  count_occ val_eq_dec (d_join JFull c07_L c07_R)
+            (VPair (VInt 1) (VPair (VSome (VInt 10)) (VSome (VInt 7)))) = 6 /\
+  count_occ val_eq_dec (d_join JFull c07_L c07_R)
+            (VPair (VInt 1) (VPair (VSome (VInt 11)) (VSome (VInt 8)))) = 1 /\
+  count_occ val_eq_dec c07_L (VPair (VInt 1) (VInt 10)) = 2 /\
+  count_occ val_eq_dec c07_R (VPair (VInt 1) (VInt 7)) = 3.
+Proof. vm_compute. repeat split; reflexivity. Qed.
+
+(* ---- 2. unmatched rows: every unmatched row of the preserved side(s) exactly once (i.e. as often
+   as it occurs in its input), other side absent; none for a key that has a partner ---- *)
+Theorem c07_left_unmatched_multiplicity : forall l r k v, Forall is_row l -> Forall is_row r ->
+    ((forall w, ~ In (VPair k w) r) ->
+     count_occ val_eq_dec (d_join JLeft l r) (VPair k (VPair v VNone))
+     = count_occ val_eq_dec l (VPair k v)) /\
+    ((exists w, In (VPair k w) r) ->
+     count_occ val_eq_dec (d_join JLeft l r) (VPair k (VPair v VNone)) = 0).
+Proof. exact d_join_left_unmatched. Qed.
+Theorem c07_right_unmatched_multiplicity : forall l r k w, Forall is_row l -> Forall is_row r ->
+    ((forall v, ~ In (VPair k v) l) ->
+     count_occ val_eq_dec (d_join JRight l r) (VPair k (VPair VNone w))
+     = count_occ val_eq_dec r (VPair k w)) /\
+    ((exists v, In (VPair k v) l) ->
+     count_occ val_eq_dec (d_join JRight l r) (VPair k (VPair VNone w)) = 0).
+Proof. exact d_join_right_unmatched. Qed.
+Theorem c07_full_unmatched_multiplicity : forall l r k, Forall is_row l -> Forall is_row r ->
+    (forall v,
+        ((forall w, ~ In (VPair k w) r) ->
+         count_occ val_eq_dec (d_join JFull l r) (VPair k (VPair (VSome v) VNone))
+         = count_occ val_eq_dec l (VPair k v)) /\
+        ((exists w, In (VPair k w) r) ->
+         count_occ val_eq_dec (d_join JFull l r) (VPair k (VPair (VSome v) VNone)) = 0)) /\
+    (forall w,
+        ((forall v, ~ In (VPair k v) l) ->
+         count_occ val_eq_dec (d_join JFull l r) (VPair k (VPair VNone (VSome w)))
+         = count_occ val_eq_dec r (VPair k w)) /\
+        ((exists v, In (VPair k v) l) ->
+         count_occ val_eq_dec (d_join JFull l r) (VPair k (VPair VNone (VSome w))) = 0)).
+Proof. exact d_join_full_unmatched. Qed.
+
+(* key 2 only on the left ((2,20) twice), key 3 only on the right ((3,9) twice), key 1 on both *)
+Example c07_example_unmatched_multiplicity :
+  count_occ val_eq_dec (d_join JLeft c07_L c07_R) (VPair (VInt 2) (VPair (VInt 20) VNone)) = 2 /\
+  count_occ val_eq_dec (d_join JLeft c07_L c07_R) (VPair (VInt 1) (VPair (VInt 10) VNone)) = 0 /\
+  count_occ val_eq_dec (d_join JRight c07_L c07_R) (VPair (VInt 3) (VPair VNone (VInt 9))) = 2 /\
+  count_occ val_eq_dec (d_join JRight c07_L c07_R) (VPair (VInt 1) (VPair VNone (VInt 7))) = 0 /\
+  count_occ val_eq_dec (d_join JFull c07_L c07_R)
+            (VPair (VInt 2) (VPair (VSome (VInt 20)) VNone)) = 2 /\
+  count_occ val_eq_dec (d_join JFull c07_L c07_R)
+            (VPair (VInt 3) (VPair VNone (VSome (VInt 9)))) = 2 /\
+  count_occ val_eq_dec (d_join JFull c07_L c07_R)
+            (VPair (VInt 1) (VPair (VSome (VInt 11)) VNone)) = 0 /\
+  count_occ val_eq_dec (d_join JInner c07_L c07_R) (VPair (VInt 2) (VPair (VInt 20) VNone)) = 0.
+Proof. vm_compute. repeat split; reflexivity. Qed.
+
+(* ---- 3a. nothing else: a row is in the result IF AND ONLY IF it is a matched pair of a left and
+   a right row with equal keys, or an unmatched row of a preserved side (no invented rows, no
+   missing rows) ---- *)
+Theorem c07_join_rows_exactly : forall kind l r x, Forall is_row l -> Forall is_row r ->
+    (In x (d_join kind l r) <->
+     match kind with
+     | JInner =>
+         exists k v w, In (VPair k v) l /\ In (VPair k w) r /\ x = VPair k (VPair v w)
+     | JLeft =>
+         (exists k v w, In (VPair k v) l /\ In (VPair k w) r /\ x = VPair k (VPair v (VSome w)))
+         \/ (exists k v, In (VPair k v) l /\ (forall w, ~ In (VPair k w) r) /\
+                         x = VPair k (VPair v VNone))
+     | JRight =>
+         (exists k v w, In (VPair k v) l /\ In (VPair k w) r /\ x = VPair k (VPair (VSome v) w))
+         \/ (exists k w, In (VPair k w) r /\ (forall v, ~ In (VPair k v) l) /\
+                         x = VPair k (VPair VNone w))
+     | JFull =>
+         (exists k v w, In (VPair k v) l /\ In (VPair k w) r /\
+                        x = VPair k (VPair (VSome v) (VSome w)))
+         \/ (exists k v, In (VPair k v) l /\ (forall w, ~ In (VPair k w) r) /\
+                         x = VPair k (VPair (VSome v) VNone))
+         \/ (exists k w, In (VPair k w) r /\ (forall v, ~ In (VPair k v) l) /\
+                         x = VPair k (VPair VNone (VSome w)))
+     end).
+Proof. exact d_join_in_iff. Qed.
+
+Example c07_example_no_invented_rows :
+  ~ In (VPair (VInt 2) (VPair (VSome (VInt 20)) (VSome (VInt 9)))) (d_join JFull c07_L c07_R) /\
+  ~ In (VPair (VInt 3) (VPair VNone (VInt 9))) (d_join JLeft c07_L c07_R) /\
+  In (VPair (VInt 3) (VPair VNone (VInt 9))) (d_join JRight c07_L c07_R).
+Proof.
+  split; [|split].
+  - apply (count_occ_not_In val_eq_dec). vm_compute. reflexivity.
+  - apply (count_occ_not_In val_eq_dec). vm_compute. reflexivity.
+  - apply (count_occ_In val_eq_dec). vm_compute. apply le_S, le_n.
+Qed.
+
+(* ---- 3b. the total number of rows: the sum over the left rows of the number of right rows with
+   that key, plus the number of unmatched rows of the preserved side(s) ---- *)
+Definition n_with_key (k : val) (rows : list val) : nat := count_occ val_eq_dec (map vfst rows) k.
+Definition n_matched_pairs (l r : list val) : nat :=
+  list_sum (map (fun lr => n_with_key (vfst lr) r) l).
+Definition n_unmatched (l r : list val) : nat :=
+  length (filter (fun lr => Nat.eqb (n_with_key (vfst lr) r) 0) l).
+
+Theorem c07_join_length : forall kind l r,
+    length (d_join kind l r) =
+    match kind with
+    | JInner => n_matched_pairs l r
+    | JLeft => n_matched_pairs l r + n_unmatched l r
+    | JRight => n_matched_pairs l r + n_unmatched r l
+    | JFull => n_matched_pairs l r + n_unmatched l r + n_unmatched r l
+    end.
+Proof. exact d_join_length. Qed.
+(* n_with_key counts the rows (k, _): it is 0 exactly when no row carries the key *)
+Theorem c07_n_with_key_zero : forall k r, Forall is_row r ->
+    (n_with_key k r = 0 <-> (forall w, ~ In (VPair k w) r)).
+Proof. exact key_count_zero_iff. Qed.
+
+Example c07_example_length :
+  length (d_join JInner c07_L c07_R) = 12 /\ length (d_join JLeft c07_L c07_R) = 14 /\
+  length (d_join JRight c07_L c07_R) = 14 /\ length (d_join JFull c07_L c07_R) = 16 /\
+  n_matched_pairs c07_L c07_R = 12 /\ n_unmatched c07_L c07_R = 2 /\ n_unmatched c07_R c07_L = 2.
+Proof. vm_compute. repeat split; reflexivity. Qed.
+
+(* ---- 4. whole programs: for every classified step-language program whose LAST step is a join,
+   both engines succeed, for every partition count, and return - as a multiset - the relational
+   join (above) of the reference results of the two sides: `denote s pre` for the left prefix and
+   `denote (SrcVec TKV rdata) rsteps` for the right side (a from_vec of (Val, Val) rows followed by
+   rsteps). Upstream transforms (grouping, combining included) are whatever `pre` / `rsteps`
+   contain. ---- *)
+Theorem c07_denote_join_last : forall s pre kind rsteps rdata,
+    denote s (pre ++ [SJoin kind rsteps rdata])
+    = d_join kind (denote s pre) (denote (SrcVec TKV rdata) rsteps).
+Proof. exact denote_join_last. Qed.
+
+Theorem c07_program_join_last : forall s pre kind rsteps rdata t c parts,
+    classify s (pre ++ [SJoin kind rsteps rdata]) = Some (t, c) ->
+    reorder_noop (fuse (cs_chain (compile s (pre ++ [SJoin kind rsteps rdata])))) ->
+    exists rs rp,
+      run_seq s (pre ++ [SJoin kind rsteps rdata]) = Ok rs /\
+      run_par s (pre ++ [SJoin kind rsteps rdata]) parts = Ok rp /\
+      Permutation rs (d_join kind (denote s pre) (denote (SrcVec TKV rdata) rsteps)) /\
+      Permutation rp (d_join kind (denote s pre) (denote (SrcVec TKV rdata) rsteps)).
+Proof. exact program_join_last. Qed.
+(* the order class of such a program is P (a multiset of (Val, Val) rows) *)
+Theorem c07_join_last_class : forall s pre kind rsteps rdata t c,
+    classify s (pre ++ [SJoin kind rsteps rdata]) = Some (t, c) -> t = TKV /\ c = P.
+Proof. exact classify_join_last. Qed.
+
+(* a grouped-and-combined left side joined (full outer) with a mapped-and-combined right side *)
+Definition c07_prog_src : src :=
+  SrcVec TU [VInt 3; VInt 1; VInt 2; VInt 7; VInt 4; VInt 9].
+Definition c07_prog_pre : list step := [SKeyBy (FMod 3); SGroupByKey; SCombineValuesLifted CSum].
+Definition c07_prog_rsteps : list step := [SMapValues (FAdd 1); SCombineValues CMax].
+Definition c07_prog_rdata : list val :=
+  [VPair (VInt 1) (VInt 5); VPair (VInt 5) (VInt 6); VPair (VInt 1) (VInt 8)].
+Example c07_example_program_join_last :
+  let steps := c07_prog_pre ++ [SJoin JFull c07_prog_rsteps c07_prog_rdata] in
+  classify c07_prog_src steps = Some (TKV, P) /\
+  denote c07_prog_src c07_prog_pre
+  = [VPair (VInt 0) (VInt 12); VPair (VInt 1) (VInt 12); VPair (VInt 2) (VInt 2)] /\
+  denote (SrcVec TKV c07_prog_rdata) c07_prog_rsteps
+  = [VPair (VInt 1) (VInt 9); VPair (VInt 5) (VInt 7)] /\
+  run_seq c07_prog_src steps
+  = Ok [VPair (VInt 0) (VPair (VSome (VInt 12)) VNone);
+        VPair (VInt 1) (VPair (VSome (VInt 12)) (VSome (VInt 9)));
+        VPair (VInt 2) (VPair (VSome (VInt 2)) VNone);
+        VPair (VInt 5) (VPair VNone (VSome (VInt 7)))] /\
+  run_par c07_prog_src steps 3 = run_seq c07_prog_src steps.
+Proof. vm_compute. repeat split; reflexivity. Qed.
